@@ -25,6 +25,15 @@ class P:
     def __repr__(self):
         return '%s+%d' % (self.r, self.o)
 
+    def __eq__(self, o):
+        return isinstance(o, P) and self.r == o.r and self.o == o.o
+
+    def __ne__(self, o):
+        return not self.__eq__(o)
+
+    def __hash__(self):
+        return hash((self.r, self.o))
+
 
 class D(frozenset):
     """abstract byte value: the set of input positions it was computed from"""
@@ -366,7 +375,7 @@ class Interp:
         return NotImplemented
 
     def is_callable(self, v):
-        return callable(v) or (isinstance(v, tuple) and v and v[0] in ('lambda', 'bind', 'method'))
+        return callable(v) or (isinstance(v, tuple) and v and v[0] in ('lambda', 'bind', 'method', 'func'))
 
     def invoke(self, f, st, fn, args):
         """call a callable value: a python function (harness), a lambda closure, a bind expression or a member-function designator"""
@@ -375,6 +384,11 @@ class Interp:
             raise _Abort()
         if callable(fn):
             return fn(*args)
+        if fn[0] == 'func':
+            tg = [g for g in self.prog.by_usr.get(fn[1], ()) if g.body is not None]
+            if len(tg) != 1:
+                raise AnalysisBroken('%s: call through a pointer to %s, which has no single body the replay can follow (%s)' % (f.short, fn[2], f.loc(st['i'])))
+            return self.call(tg[0], list(args)[:len(tg[0].params)])
         if fn[0] == 'lambda':
             _, lam, caps, this = fn
             env = dict(caps)
@@ -440,6 +454,8 @@ class Interp:
                 if st.get('move') and args and isinstance(args[0], list):
                     del args[0][:]          # move construction: the source is left empty (what libstdc++ does, and what the code relies on)
                 return out
+            if cls.startswith(('std::set<', 'std::unordered_set<')) and args and isinstance(args[0], list):
+                return list(args[0])            # a set a harness holds as a sequence of distinct elements
             if cls.startswith(('std::map<', 'std::unordered_map<', 'std::set<', 'std::unordered_set<')):
                 out = dict(args[0]) if args and isinstance(args[0], dict) else {'__map__': True}
                 if st.get('move') and args and isinstance(args[0], dict):
@@ -691,6 +707,11 @@ class Interp:
         if name == 'operator=' and 'obj' in st and cls_ and cls_ not in self.prog.classes and len(args) == 1:
             self.write(f, st, self.lv(f, st['obj'], env), args[0], env)         # a value type of a library: assignment copies the (opaque) value
             return objv
+        if not name and st['k'] == 'CallExpr' and st.get('calleeexpr') is not None:
+            # a call through a pointer to function held in a variable or a field
+            fnv = self.ev(f, st['calleeexpr'], env)
+            if self.is_callable(fnv) or fnv in (0, None):
+                return self.invoke(f, st, fnv, args)
         raise AnalysisBroken('%s: call of %s at %s is neither a hook nor inlined' % (f.short, name or '?', f.loc(st['i'])))
 
     # ---- statements ----------------------------------------------------------
@@ -1029,6 +1050,8 @@ class Interp:
                 return ('method', st.get('usr'), st.get('n'))
             if st.get('dk') == 'EnumConstant' and 'cv' in st:
                 return st['cv']
+            if st.get('dk') == 'Function' and st.get('usr'):
+                return ('func', st['usr'], st.get('n'))         # a function designator (decays to a pointer to function)
             return None
         if k == 'LambdaExpr':
             lam = self.prog.lambda_func(f, st)
@@ -1107,7 +1130,7 @@ class Interp:
                     self.mem[name] = [cur]
                     env[loc[1]] = ('ref', P(name, 0))
                     return P(name, 0)
-                raise AnalysisBroken('%s: unsupported address-of at %s' % (f.short, f.loc(e)))
+                raise AnalysisBroken('%s: unsupported address-of at %s (%s)' % (f.short, f.loc(e), loc[0]))
             if op == '*':
                 return self.read(f, st, self.lv(f, e, env), env)
             if op == '!':
@@ -1256,6 +1279,10 @@ class Interp:
             if (isinstance(a, (D, int)) and isinstance(b, (D, int))):
                 return D((a if isinstance(a, D) else frozenset()) | (b if isinstance(b, D) else frozenset()))
             return None
+        if op in ('==', '!=') and (self.is_callable(a) or self.is_callable(b)) and (isinstance(a, int) or self.is_callable(a)) and (isinstance(b, int) or self.is_callable(b)):
+            # a function pointer compared with another one or with a constant (SIG_DFL, SIG_IGN, SIG_ERR, nullptr): equal only to itself
+            same = (a is b) or (not isinstance(a, int) and not isinstance(b, int) and a == b)
+            return int(same == (op == '=='))
         if not isinstance(a, int) or not isinstance(b, int):
             return None
         if op in ('/', '%') and b == 0:
@@ -1386,6 +1413,12 @@ def _keys(m):
 
 
 def _find(it, f, st, a):
+    if 'obj' not in st and len(a) == 3 and isinstance(a[0], It) and isinstance(a[1], It) and isinstance(a[0].c, list):
+        # std::find(first, last, value)
+        for i in range(a[0].k, a[1].k):
+            if a[0].c[i] == a[2]:
+                return It(a[0].c, i)
+        return It(a[0].c, a[1].k)
     m = _vec(it, f, st)
     if isinstance(m, dict):
         key = it.cstr(a[0]) if it.cstr(a[0]) is not None else a[0]
